@@ -3362,6 +3362,11 @@ class ServiceRequestingTransport(Transport):
         # Now we wait to hear back; the user is expecting a blocking-style auth
         # request so there's no point giving control back anywhere.
         while not self._service_userauth_accepted:
+            if not self.active:
+                e = self.get_exception()
+                if e is None:
+                    e = SSHException("No existing session")
+                raise e
             # TODO: feels like we're missing an AuthHandler Event like
             # 'self.auth_event' which is set when AuthHandler shuts down in
             # ways good AND bad. Transport only seems to have completion_event
